@@ -84,6 +84,11 @@ class Inconclusive(Exception):
     pass
 
 
+class EnoughViolations(BaseException):
+    """Raised by Ctx.violation once a run has seen so many violations that exploring further adds nothing (the tree is broken);
+    the driver ends the run normally and reports what was found."""
+
+
 class AnchorMissing(Inconclusive):
     pass
 
@@ -99,6 +104,7 @@ def anchor(obj, name):
 class Ctx(object):
     MAX_SAMPLES = 6
     MAX_VIOLATIONS = 25
+    ENOUGH = 300
 
     def __init__(self, prop, level, tier, seed, shard=0, nshards=1):
         self.prop = prop
@@ -176,6 +182,9 @@ class Ctx(object):
             if len(self.violations) < self.MAX_VIOLATIONS and self._per_mech[mech] <= 2:
                 self.violations.append({'what': what, 'witness': jsonable(witness)})
             self.counters['violations_total'] = self.counters.get('violations_total', 0) + 1
+            enough = self.counters['violations_total'] >= self.ENOUGH
+        if enough:
+            raise EnoughViolations()
 
     def finding(self, key, what, witness):
         """A violation whose mechanism was classified as ``key``. Listed in KNOWN_FINDINGS.txt -> known
